@@ -320,6 +320,23 @@ func exec(t []string) string {
 		return "ok"
 	case "wseq":
 		return execWseq(t)
+	case "addrenc": // addrenc <n> (<ts> <services> <ip hex, 0/4/16 bytes> <port>)...: Addr.Serialize of address objects
+		n := atoi(t[1])
+		var as []*p2p.NetAddress
+		for i := 0; i < n; i++ {
+			ts, _ := strconv.ParseInt(t[2+4*i], 10, 64)
+			sv, _ := strconv.ParseUint(t[3+4*i], 10, 64)
+			var ip net.IP
+			if b := hx.UnHex(t[4+4*i]); b != nil {
+				ip = net.IP(b)
+			}
+			as = append(as, &p2p.NetAddress{Timestamp: time.Unix(ts, 0), Services: sv, IP: ip, Port: uint16(atoi(t[5+4*i]))})
+		}
+		b, err := serialize(msg.NewAddr(as))
+		if err != nil {
+			return "err"
+		}
+		return hx.Hex(b)
 	case "rtc": // rtc <stack> <magic> <cmd> <seed> <payload>: a well-formed message built from the seed (no decoder involved), written and read back
 		seed, err := strconv.ParseUint(t[4], 10, 64)
 		if err != nil {
@@ -457,6 +474,123 @@ func buildMerkleBlock(seed uint64, n, mode int) *msg.MerkleBlock {
 	return mb
 }
 
+// sameMessage compares the message object handed to WriteMessage with the object the reader returned, field by
+// field, for the types whose in-memory form is not their wire form (net.IP of 4 or 16 bytes, time.Time).
+// Independent of any encoding: an address is equal if net.IP.Equal says so.
+func sameMessage(w, g p2p.Message) bool {
+	switch a := w.(type) {
+	case *msg.Addr:
+		b, ok := g.(*msg.Addr)
+		if !ok || len(a.AddrList) != len(b.AddrList) {
+			return false
+		}
+		for i := range a.AddrList {
+			x, y := a.AddrList[i], b.AddrList[i]
+			if x.Timestamp.Unix() != y.Timestamp.Unix() || x.Services != y.Services || x.Port != y.Port {
+				return false
+			}
+			if len(x.IP) == 0 {
+				if !y.IP.Equal(net.IPv6zero) && len(y.IP) != 0 {
+					return false
+				}
+			} else if !x.IP.Equal(y.IP) {
+				return false
+			}
+		}
+	case *msg.Version:
+		b, ok := g.(*msg.Version)
+		if !ok || a.Version != b.Version || a.Services != b.Services || a.Timestamp.Unix() != b.Timestamp.Unix() || a.Port != b.Port ||
+			a.Nonce != b.Nonce || a.Height != b.Height || a.Relay != b.Relay {
+			return false
+		}
+		if a.Version >= pact.CRProposalVersion && a.NodeVersion != b.NodeVersion {
+			return false
+		}
+	case *msg.Ping:
+		b, ok := g.(*msg.Ping)
+		return ok && a.Nonce == b.Nonce
+	case *msg.Pong:
+		b, ok := g.(*msg.Pong)
+		return ok && a.Nonce == b.Nonce
+	case *msg.DAddr:
+		b, ok := g.(*msg.DAddr)
+		return ok && a.PID == b.PID && a.Encode == b.Encode && a.Timestamp.Unix() == b.Timestamp.Unix() && bytes.Equal(a.Cipher, b.Cipher) && bytes.Equal(a.Signature, b.Signature)
+	case *msg.Reject:
+		b, ok := g.(*msg.Reject)
+		return ok && a.Cmd == b.Cmd && a.RejectCode == b.RejectCode && a.Reason == b.Reason && a.Hash == b.Hash
+	case *msg.FilterLoad:
+		b, ok := g.(*msg.FilterLoad)
+		if !ok || !bytes.Equal(a.Filter, b.Filter) || a.HashFuncs != b.HashFuncs || a.Tweak != b.Tweak || a.Flags != b.Flags || len(a.TxTypes) != len(b.TxTypes) {
+			return false
+		}
+		for i := range a.TxTypes {
+			if a.TxTypes[i] != b.TxTypes[i] {
+				return false
+			}
+		}
+	case *msg.FilterAdd:
+		b, ok := g.(*msg.FilterAdd)
+		return ok && bytes.Equal(a.Data, b.Data)
+	case *msg.TxFilterLoad:
+		b, ok := g.(*msg.TxFilterLoad)
+		return ok && a.Type == b.Type && bytes.Equal(a.Data, b.Data)
+	case *msg.GetBlocks:
+		b, ok := g.(*msg.GetBlocks)
+		if !ok || len(a.Locator) != len(b.Locator) || a.HashStop != b.HashStop {
+			return false
+		}
+		for i := range a.Locator {
+			if *a.Locator[i] != *b.Locator[i] {
+				return false
+			}
+		}
+	case *msg.Inv:
+		b, ok := g.(*msg.Inv)
+		if !ok || len(a.InvList) != len(b.InvList) {
+			return false
+		}
+		for i := range a.InvList {
+			if *a.InvList[i] != *b.InvList[i] {
+				return false
+			}
+		}
+	case *msg.MerkleBlock:
+		b, ok := g.(*msg.MerkleBlock)
+		if !ok || a.Transactions != b.Transactions || len(a.Hashes) != len(b.Hashes) || !bytes.Equal(a.Flags, b.Flags) {
+			return false
+		}
+		for i := range a.Hashes {
+			if *a.Hashes[i] != *b.Hashes[i] {
+				return false
+			}
+		}
+	case *dmsg.Addr:
+		b, ok := g.(*dmsg.Addr)
+		return ok && a.Host == b.Host && a.Port == b.Port
+	case *dmsg.Ping:
+		b, ok := g.(*dmsg.Ping)
+		return ok && a.Nonce == b.Nonce
+	case *dmsg.Pong:
+		b, ok := g.(*dmsg.Pong)
+		return ok && a.Nonce == b.Nonce
+	case *dmsg.VerAck:
+		b, ok := g.(*dmsg.VerAck)
+		return ok && a.Signature == b.Signature
+	case *dmsg.Proposal:
+		b, ok := g.(*dmsg.Proposal)
+		return ok && bytes.Equal(a.Proposal.Sponsor, b.Proposal.Sponsor) && a.Proposal.BlockHash == b.Proposal.BlockHash &&
+			a.Proposal.ViewOffset == b.Proposal.ViewOffset && bytes.Equal(a.Proposal.Sign, b.Proposal.Sign)
+	case *dmsg.Vote:
+		b, ok := g.(*dmsg.Vote)
+		return ok && a.Vote.ProposalHash == b.Vote.ProposalHash && bytes.Equal(a.Vote.Signer, b.Vote.Signer) && a.Vote.Accept == b.Vote.Accept &&
+			bytes.Equal(a.Vote.Sign, b.Vote.Sign)
+	case *dmsg.ResetView:
+		b, ok := g.(*dmsg.ResetView)
+		return ok && bytes.Equal(a.Sponsor, b.Sponsor) && bytes.Equal(a.Sign, b.Sign)
+	}
+	return true
+}
+
 var lastRT struct {
 	written bool
 	kind    string
@@ -513,7 +647,7 @@ func roundTrip(st string, magic uint32, cmd string, m p2p.Message, payloadBytes 
 		return "err reserialize"
 	}
 	lastRT.kind = "ok"
-	lastRT.equal = bytes.Equal(out, payloadBytes) && got.CMD() == cmd
+	lastRT.equal = bytes.Equal(out, payloadBytes) && got.CMD() == cmd && sameMessage(m, got)
 	return fmt.Sprintf("ok %s %s", got.CMD(), hx.Hex(out))
 }
 
@@ -627,7 +761,7 @@ func oracle(t []string, out string) *hx.Violation {
 		}
 		mk := instances[t[1]][cmdName]
 		if lastRT.kind == "ok" && !lastRT.equal {
-			return &hx.Violation{Kind: "roundtrip-differs", Detail: "message read back differs from the message written"}
+			return &hx.Violation{Kind: "roundtrip-differs", Detail: "the message object read back differs from the object handed to WriteMessage (field-by-field comparison; frame, length and checksum were all accepted)"}
 		}
 		if lastRT.kind != "ok" {
 			return &hx.Violation{Kind: "written-not-readable", Detail: fmt.Sprintf("%s message of %d payload bytes (MaxLength %d) written by WriteMessage is rejected by the reader: %s",
@@ -776,6 +910,23 @@ func randTx(r *hx.Rand) []byte {
 	return buf.Bytes()
 }
 
+// randIP: the forms a net.IP takes inside the node: 16 bytes (IPv6 or IPv4-mapped), 4 bytes (what a tcp4 net.TCPAddr holds), nil.
+func randIP(r *hx.Rand) net.IP {
+	switch r.Intn(5) {
+	case 0:
+		return net.IP(r.Bytes(4))
+	case 1:
+		return net.IPv4(r.Byte(), r.Byte(), r.Byte(), r.Byte())
+	case 2:
+		return net.IPv4(203, 0, 113, r.Byte()).To4()
+	case 3:
+		if !wellFormedOnly {
+			return nil
+		}
+	}
+	return net.IP(r.Bytes(16))
+}
+
 func signLen(r *hx.Rand) int {
 	if wellFormedOnly {
 		return r.Pick(64, 64, 0)
@@ -824,7 +975,7 @@ func constructedMsg(r *hx.Rand, st, cmd string) p2p.Message {
 	case "elanet/addr":
 		var as []*p2p.NetAddress
 		for i := 0; i < r.Intn(4); i++ {
-			as = append(as, &p2p.NetAddress{Timestamp: time.Unix(int64(uint32(r.U64())), 0), Services: r.U64(), IP: net.IP(r.Bytes(16)), Port: uint16(r.U64())})
+			as = append(as, &p2p.NetAddress{Timestamp: time.Unix(int64(uint32(r.U64())), 0), Services: r.U64(), IP: randIP(r), Port: uint16(r.U64())})
 		}
 		m = msg.NewAddr(as)
 	case "elanet/getblocks":
@@ -1341,6 +1492,30 @@ func gen(g *hx.Gen) {
 		fmt.Fprintf(&sb, "wseq %d %s %d", magics[r.Intn(3)], strings.Join(seq, "."), n)
 		for _, d := range descs {
 			fmt.Fprintf(&sb, " %s %s", d, hx.Hex(freshBlockBytes(mkBlock(d))))
+		}
+		g.Emit("%s", sb.String())
+	}
+
+	// address objects in every in-memory form of net.IP -> Addr.Serialize
+	for k := 0; k < g.N(200, 2000); k++ {
+		n := r.Intn(4)
+		var sb strings.Builder
+		fmt.Fprintf(&sb, "addrenc %d", n)
+		for i := 0; i < n; i++ {
+			var ip []byte
+			switch r.Intn(5) {
+			case 0:
+				ip = r.Bytes(4)
+			case 1:
+				ip = net.IPv4(r.Byte(), r.Byte(), r.Byte(), r.Byte())
+			case 2:
+				ip = nil
+			case 3:
+				ip = r.Bytes(r.Pick(1, 5, 15, 17))
+			default:
+				ip = r.Bytes(16)
+			}
+			fmt.Fprintf(&sb, " %d %d %s %d", int64(uint32(r.U64())), r.U64(), hx.Hex(ip), uint16(r.U64()))
 		}
 		g.Emit("%s", sb.String())
 	}
